@@ -343,8 +343,11 @@ def write_evidence(ctx, level, violations):
         "wall_s": round(time.time() - ctx.t0, 2),
         "violations": violations,
     }
-    os.makedirs(os.path.join(ROOT, "evidence"), exist_ok=True)
-    with open(os.path.join(ROOT, "evidence", f"{ctx.pid}.json"), "w") as f:
+    # evidence/ describes runs on /repo's working tree; a run against another tree (VERIF_REPO: a scratch worktree with a
+    # seeded change) must not overwrite it
+    sub = "evidence" if os.path.realpath(os.environ.get("VERIF_REPO", "/repo")) == "/repo" else "evidence-other-tree"
+    os.makedirs(os.path.join(ROOT, sub), exist_ok=True)
+    with open(os.path.join(ROOT, sub, f"{ctx.pid}.json"), "w") as f:
         json.dump(ev, f, indent=1)
 
 
